@@ -165,7 +165,11 @@ namespace {
         when = date_t(CURRENT_DATE().year(), when.month(), when.day());
 
         if (when.month() > CURRENT_DATE().month())
-          when -= gregorian::years(1);
+          // the same month and day one year earlier; subtracting years(1)
+          // would snap a month's last day to the last day of the target
+          // month (02/28 -> 02/29 of a leap year)
+          when = date_t(static_cast<date_t::year_type>(when.year() - 1),
+                        when.month(), when.day());
       }
     }
     return when;
